@@ -108,6 +108,18 @@ type Obs struct {
 	System bool   `json:"system,omitempty"`
 }
 
+// Sent is one user message handed to Tell / TellSelf.
+type Sent struct {
+	ID        int
+	T         int64
+	From      string // logical name of the sending actor, "" = outside
+	To        string // path of the target
+	Via       string
+	AfterStop bool
+	TraceIdx  int // len(Trace) when the message was sent
+	EventIdx  int // len(Events) when the message was sent
+}
+
 // CallResult of an operation issued from a handler or the script.
 type CallResult struct {
 	T    int64
@@ -146,6 +158,7 @@ type World struct {
 	Trace    []Ev
 	Events   []Obs
 	Calls    []CallResult
+	Sends    []Sent
 	refs     map[string]vivid.ActorRef // logical name -> ref returned by ActorOf
 	senders  map[string]vivid.ActorRef // logical name -> last Sender() captured
 	gates    map[string]chan struct{}
@@ -429,13 +442,14 @@ func (w *World) strategy(supervisor, kind string, decisions []string) vivid.Supe
 // probe actor
 
 type probe struct {
-	w          *World
-	sh         *probeShared
-	inst       int
-	incar      int // incarnation number this instance was (re)started as; updated on restart for non-provider actors
-	count      int
-	tags       []string // behaviour tags (become stack mirror is not needed: the tag is bound in the closure)
-	killedSeen int
+	w           *World
+	sh          *probeShared
+	inst        int
+	incar       int // incarnation number this instance was (re)started as; updated on restart for non-provider actors
+	count       int
+	tags        []string // behaviour tags (become stack mirror is not needed: the tag is bound in the closure)
+	killedSeen  int
+	stashedOnce map[int]bool
 }
 
 type hookFailure struct{ what string }
@@ -538,6 +552,16 @@ func (p *probe) receive(ctx vivid.ActorContext, beh string) {
 		}
 	case *Msg:
 		p.count++
+		// a program with a stash step: the first delivery only stashes, the redelivery runs the rest
+		if hasStash(m.Do) && !p.stashedOnce[m.ID] {
+			if p.stashedOnce == nil {
+				p.stashedOnce = map[int]bool{}
+			}
+			p.stashedOnce[m.ID] = true
+			w.record(Ev{Actor: me, Inst: p.inst, Kind: "msg", ID: m.ID, From: from, Beh: beh, Count: p.count, Sched: m.Sched, Note: "stashed"})
+			ctx.Stash()
+			return
+		}
 		w.record(Ev{Actor: me, Inst: p.inst, Kind: "msg", ID: m.ID, From: from, Beh: beh, Count: p.count, Sched: m.Sched})
 		if s := ctx.Sender(); s != nil {
 			w.mu.Lock()
@@ -573,8 +597,11 @@ func (p *probe) run(ctx vivid.ActorContext, prog []Step, curID int) {
 	for _, st := range prog {
 		switch st.Op {
 		case "tell":
-			ctx.Tell(w.Resolve(st.To, st.Via, p, ctx), &Msg{ID: st.ID, Do: st.Do})
+			ref := w.Resolve(st.To, st.Via, p, ctx)
+			w.sent(st.ID, who, ref, st.Via)
+			ctx.Tell(ref, &Msg{ID: st.ID, Do: st.Do})
 		case "tellself":
+			w.sent(st.ID, who, ctx.Ref(), "self")
 			ctx.TellSelf(&Msg{ID: st.ID, Do: st.Do})
 		case "reply":
 			ctx.Reply(&Msg{ID: st.ID, Do: st.Do})
@@ -596,16 +623,7 @@ func (p *probe) run(ctx vivid.ActorContext, prog []Step, curID int) {
 		case "unwatch":
 			ctx.Unwatch(w.Resolve(st.To, st.Via, p, ctx))
 		case "stash":
-			ctx.Stash()
-			// the delivery just recorded was not "handled": mark it
-			w.mu.Lock()
-			for i := len(w.Trace) - 1; i >= 0; i-- {
-				if w.Trace[i].Actor == ctx.Ref().GetPath() && w.Trace[i].Kind == "msg" {
-					w.Trace[i].Note = "stashed"
-					break
-				}
-			}
-			w.mu.Unlock()
+			// handled at delivery (see receive)
 		case "unstash":
 			if st.N == -999 {
 				ctx.Unstash()
@@ -666,6 +684,15 @@ func (p *probe) run(ctx vivid.ActorContext, prog []Step, curID int) {
 			panic("harness: unknown step op " + st.Op)
 		}
 	}
+}
+
+func hasStash(prog []Step) bool {
+	for _, st := range prog {
+		if st.Op == "stash" {
+			return true
+		}
+	}
+	return false
 }
 
 func durs(d int64) []time.Duration {
@@ -746,7 +773,28 @@ func (w *World) Spawn(spec Spec) (vivid.ActorRef, error) {
 
 // Tell sends from outside (the system is the sender).
 func (w *World) Tell(to, via string, id int, do []Step) {
-	w.Sys.Tell(w.Resolve(to, via, nil, nil), &Msg{ID: id, Do: do})
+	ref := w.Resolve(to, via, nil, nil)
+	if id != 0 {
+		w.sent(id, "", ref, via)
+	}
+	w.Sys.Tell(ref, &Msg{ID: id, Do: do})
+}
+
+func (w *World) sent(id int, from string, ref vivid.ActorRef, via string) {
+	to := ""
+	if ref != nil {
+		to = ref.GetPath()
+	}
+	w.mu.Lock()
+	w.Sends = append(w.Sends, Sent{ID: id, T: w.Now(), From: from, To: to, Via: via, AfterStop: w.stopped, TraceIdx: len(w.Trace), EventIdx: len(w.Events)})
+	w.mu.Unlock()
+}
+
+// SendsCopy returns a copy of the recorded sends.
+func (w *World) SendsCopy() []Sent {
+	w.mu.Lock()
+	defer w.mu.Unlock()
+	return append([]Sent(nil), w.Sends...)
 }
 
 // Kill from outside.
